@@ -450,10 +450,97 @@ fn forest(args: &[String]) -> anyhow::Result<()> {
     Ok(())
 }
 
+
+/// `connectprobe`: the API-level meaning of `connect` at the boundary of the routed columns.  For every
+/// row shape and column c in {routed-1, routed, routed+1, wires-1}: connect(Wire(row, c), public input).
+/// Either the call is refused (panic: "isn't routable", the documented precondition) or the equality must be
+/// enforced: an assignment in which the two differ must not yield an accepted proof.
+fn connectprobe(_args: &[String]) -> anyhow::Result<()> {
+    use plonky2::gates::noop::NoopGate;
+    use plonky2::iop::witness::{PartialWitness, WitnessWrite};
+    use plonky2::plonk::circuit_data::CircuitConfig;
+    type C = PoseidonGoldilocksConfig;
+    let mut rows = vec![];
+    for (nw, nr) in [(135usize, 80usize), (135, 37), (234, 120), (135, 134)] {
+        for c in [nr - 1, nr, nr + 1, nw - 1] {
+            if c >= nw {
+                continue;
+            }
+            let mut config = CircuitConfig::standard_recursion_config();
+            config.num_wires = nw;
+            config.num_routed_wires = nr;
+            let mut b = CircuitBuilder::<F, D>::new(config);
+            let pi = b.add_virtual_public_input();
+            let row = b.add_gate(NoopGate, vec![]);
+            let wire = Target::wire(row, c);
+            let refused = guarded(move || {
+                b.connect(wire, pi);
+                b
+            });
+            let mut rec = json!({"nw": nw, "nr": nr, "col": c, "routed": c < nr});
+            let b = match refused {
+                Err(p) => {
+                    rec["outcome"] = json!("refused");
+                    rec["detail"] = json!(p);
+                    rows.push(rec);
+                    continue;
+                }
+                Ok(b) => b,
+            };
+            let data = match guarded(move || b.build::<C>()) {
+                Ok(d) => d,
+                Err(p) => {
+                    rec["outcome"] = json!("build_panic");
+                    rec["detail"] = json!(p);
+                    rows.push(rec);
+                    continue;
+                }
+            };
+            let mut pw = PartialWitness::<F>::new();
+            pw.set_target(pi, F::from_canonical_u64(7))?;
+            let honest = match guarded(|| generate_partial_witness(pw, &data.prover_only, &data.common)) {
+                Ok(Ok(w)) => w,
+                other => {
+                    rec["outcome"] = json!("witness_failed");
+                    rec["detail"] = json!(format!("{:?}", other.map(|r| r.map(|_| ()).map_err(|e| e.to_string()))));
+                    rows.push(rec);
+                    continue;
+                }
+            };
+            let a0 = Assignment::from_partition(&honest);
+            rec["honest_wire_value"] = json!(a0.get(wire).to_canonical_u64());
+            // the cheating prover: same assignment except that the connected wire holds another value
+            let identity: Vec<usize> = (0..a0.values.len()).collect();
+            let mut a = a0.clone();
+            let i = a.idx(wire);
+            a.values[i] = F::from_canonical_u64(8);
+            let res = guarded(|| {
+                let mut timing = TimingTree::default();
+                prove_with_partition_witness(&data.prover_only, &data.common, a.to_partition(&identity), &mut timing)
+            });
+            let outcome = match res {
+                Err(p) => format!("prove_panic: {}", &p[..p.len().min(120)]),
+                Ok(Err(e)) => format!("prove_err: {e:#}"),
+                Ok(Ok(proof)) => match guarded(|| data.verify(proof)) {
+                    Ok(Ok(())) => "accepted".to_string(),
+                    Ok(Err(e)) => format!("verify_err: {e:#}"),
+                    Err(p) => format!("verify_panic: {}", &p[..p.len().min(120)]),
+                },
+            };
+            rec["outcome"] = json!(if outcome == "accepted" { "forgery_accepted" } else { "enforced" });
+            rec["detail"] = json!(outcome);
+            rows.push(rec);
+        }
+    }
+    emit(&json!({"connectprobe": rows}));
+    Ok(())
+}
+
 fn main() -> std::process::ExitCode {
     run_main(|cmd, rest| match cmd {
         "run" => run(rest),
         "forest" => forest(rest),
+        "connectprobe" => connectprobe(rest),
         other => Err(anyhow::anyhow!("unknown command {other}")),
     })
 }
